@@ -14,6 +14,7 @@ structure Weak (st : St) (r : Ret) : Prop where
   endp : r.st.endp = st.endp
   depth : r.st.depth = st.depth
   le : st.cur.pos ≤ r.st.cur.pos
+  inb : st.cur.pos ≤ st.endp → r.st.cur.pos ≤ st.endp
 
 /-- What every invocation guarantees about the input state. -/
 structure Good (m : RMode) (st : St) (r : Ret) : Prop extends Weak st r where
@@ -22,12 +23,15 @@ structure Good (m : RMode) (st : St) (r : Ret) : Prop extends Weak st r where
 def GoodRec (rec : Rec) : Prop := ∀ j a m env st r, rec j a m env st = some r → Good m st r
 
 theorem Weak.refl (st : St) (res : Res) (raw surv : List Ev) : Weak st ⟨res, st, raw, surv⟩ :=
-  ⟨rfl, rfl, Nat.le_refl _⟩
+  ⟨rfl, rfl, Nat.le_refl _, id⟩
 
 theorem Weak.trans {st r1 r2} (h1 : Weak st r1) (h2 : Weak r1.st r2) : Weak st r2 where
   endp := by rw [h2.endp, h1.endp]
   depth := by rw [h2.depth, h1.depth]
   le := Nat.le_trans h1.le h2.le
+  inb := fun hv => by
+    have := h2.inb (by rw [h1.endp]; exact h1.inb hv)
+    rw [h1.endp] at this; exact this
 
 @[simp] theorem prepend_res (raw surv : List Ev) (r : Ret) : (r.prepend raw surv).res = r.res := rfl
 @[simp] theorem prepend_st (raw surv : List Ev) (r : Ret) : (r.prepend raw surv).st = r.st := rfl
@@ -38,11 +42,11 @@ theorem Weak.trans {st r1 r2} (h1 : Weak st r1) (h2 : Weak r1.st r2) : Weak st r
   unfold Ret.dropOnFail; split <;> rfl
 
 theorem Weak.prepend {st r} (raw surv : List Ev) (h : Weak st r) : Weak st (r.prepend raw surv) :=
-  ⟨h.endp, h.depth, h.le⟩
+  ⟨h.endp, h.depth, h.le, h.inb⟩
 
 /-- Only the state matters. -/
 theorem Weak.congr {st r r'} (h : Weak st r) (hs : r'.st = r.st) : Weak st r' :=
-  ⟨by rw [hs]; exact h.endp, by rw [hs]; exact h.depth, by rw [hs]; exact h.le⟩
+  ⟨by rw [hs]; exact h.endp, by rw [hs]; exact h.depth, by rw [hs]; exact h.le, by rw [hs]; exact h.inb⟩
 
 theorem Good.congr {m st r r'} (h : Good m st r) (hs : r'.st = r.st) (hr : r'.res = r.res) : Good m st r' :=
   ⟨h.toWeak.congr hs, by rw [hs, hr]; exact h.failCur⟩
@@ -65,7 +69,7 @@ theorem guard_good {g m st r} (hg : g = .required ∨ g = m) (h : Weak st r) :
     Good m st (guardRestore g st.cur r) := by
   unfold guardRestore
   split
-  · exact ⟨⟨h.endp, h.depth, Nat.le_refl _⟩, fun _ _ => rfl⟩
+  · exact ⟨⟨h.endp, h.depth, Nat.le_refl _, id⟩, fun _ _ => rfl⟩
   · rename_i hc
     refine ⟨h, ?_⟩
     intro hf hm
@@ -80,7 +84,7 @@ theorem guard_req_drop_good {m st r} (h : Weak st r) : Good m st (guardRestore .
   (guard_good (Or.inl rfl) h).dropOnFail
 
 theorem alwaysRestore_good {m st r} (h : Weak st r) : Good m st (alwaysRestore st.cur r) :=
-  ⟨⟨h.endp, h.depth, Nat.le_refl _⟩, fun _ _ => rfl⟩
+  ⟨⟨h.endp, h.depth, Nat.le_refl _, id⟩, fun _ _ => rfl⟩
 
 section helpers
 variable {rec : Rec} (hrec : GoodRec rec)
@@ -258,18 +262,20 @@ theorem loopUntil1_weak (cx : Ctx) (a : AMode) (env : Env) (cond : Nat) :
       · simp only [Option.some.injEq] at h; subst h; exact g1
       · split at h
         · simp only [Option.some.injEq] at h; subst h; exact g1
-        · split at h
+        · rename_i hne
+          split at h
           · exact absurd h (by simp)
           · rename_i r2 h2
             simp only [Option.some.injEq] at h; subst h
             have g2 := ih _ _ h2
-            refine Weak.prepend _ _ ⟨?_, ?_, ?_⟩
-            · rw [g2.endp]; simp [g1.endp]
-            · rw [g2.depth]; simp [g1.depth]
-            · have h2' := g2.le
-              have h1' := g1.le
-              simp only [bump_pos] at h2'
+            have gb : Weak r1.st ⟨.ok, bump cx r1.st 1, [], []⟩ := by
+              refine ⟨by simp, by simp, by simp, ?_⟩
+              intro hv
+              have hne' : r1.st.cur.pos ≠ r1.st.endp := by
+                simpa [St.empty] using hne
+              simp only [bump_pos]
               omega
+            exact ((g1.trans gb).trans g2).prepend _ _
 
 theorem loopUntil2_weak (a : AMode) (env : Env) (cond b : Nat) :
     ∀ (k : Nat) (st : St) (r : Ret), loopUntil2 rec a env cond b k st = some r → Weak st r := by
@@ -337,7 +343,7 @@ theorem body_good {rec : Rec} (hrec : GoodRec rec) (cx : Ctx) (k : Nat) (kind : 
     simp only [body, Option.some.injEq] at h
     subst h
     have f := atomStep_frame cx atm st
-    refine ⟨⟨f.endp, f.depth, f.mono⟩, ?_⟩
+    refine ⟨⟨f.endp, f.depth, f.mono, f.inb⟩, ?_⟩
     intro hf _
     apply f.fail_cur
     cases hb : (atomStep cx atm st).1 <;> simp_all
@@ -386,7 +392,7 @@ theorem body_good {rec : Rec} (hrec : GoodRec rec) (cx : Ctx) (k : Nat) (kind : 
     obtain ⟨r0, h0, rfl⟩ := h
     have g := (hrec _ _ _ _ _ _ h0)
     have ga : Good m st (alwaysRestore st.cur r0) := alwaysRestore_good g.toWeak
-    split <;> exact ⟨⟨ga.endp, ga.depth, Nat.le_refl _⟩, fun _ _ => rfl⟩
+    split <;> exact ⟨⟨ga.endp, ga.depth, Nat.le_refl _, id⟩, fun _ _ => rfl⟩
   | until1 cond =>
     simp only [body, Option.map_eq_some_iff] at h
     obtain ⟨r0, h0, rfl⟩ := h
@@ -483,7 +489,7 @@ theorem body_good {rec : Rec} (hrec : GoodRec rec) (cx : Ctx) (k : Nat) (kind : 
           · rename_i r2 h2
             simp only [Option.some.injEq] at h
             subst h
-            exact guard_req_drop_good ⟨g1.endp, g1.depth, g1.le⟩
+            exact guard_req_drop_good ⟨g1.endp, g1.depth, g1.le, g1.inb⟩
         · simp only [Option.some.injEq] at h
           subst h
           exact guard_req_drop_good g1
